@@ -45,6 +45,8 @@ type verifC10Log struct {
 	rows  []ch.Record // present rows, ascending
 	leo   uint64
 	local uint64 // adopted logical boundary
+	// regressed: a lower boundary was offered after the adopted one
+	regressed bool
 }
 
 // verifC10Build appends n generated rows to every store, adopts a boundary and
@@ -97,6 +99,20 @@ func verifC10Build(rt *rapid.T, nextID *uint64, id ch.ChannelID, maxRows int, st
 		}
 		for len(l.rows) > 0 && l.rows[0].Index <= trim {
 			l.rows = l.rows[1:]
+		}
+		// a regressing boundary update must not move the boundary backwards
+		if rapid.Bool().Draw(rt, "regress") {
+			lower := uint64(rapid.IntRange(1, int(l.local)).Draw(rt, "lowerBoundary"))
+			for i, cs := range stores {
+				if _, err := cs.AdoptRetentionBoundary(ctx, lower, "committed"); err != nil {
+					rt.Fatalf("regressing AdoptRetentionBoundary(%d) on store %d: %v", lower, i, err)
+				}
+				st, err := cs.LoadRetentionState(ctx)
+				if err != nil || st.LocalRetentionThroughSeq != l.local || st.PhysicalRetentionThroughSeq > st.LocalRetentionThroughSeq {
+					rt.Fatalf("store %d: after adopting %d then %d the retention state is %+v (err=%v); the boundary must stay at %d", i, l.local, lower, st, err, l.local)
+				}
+			}
+			l.regressed = true
 		}
 	}
 	return l
@@ -316,7 +332,8 @@ func TestVerifC10StoreReadBounds(t *testing.T) {
 			}
 		}
 		k.Key("store", verifC10RecSeqs(l.rows), l.local, strings.Join(descr, ";"))
-		k.SetNonTrivial(insideReverse)
+		k.SetNonTrivial(insideReverse || l.regressed)
+		k.LabelIf(l.regressed, "store: regressing boundary update offered (non-trivial)")
 		k.LabelIf(insideReverse, "store: reverse / latest read with MinSeq strictly inside the stored range (non-trivial)")
 		k.LabelIf(multiPage, "store: NextSeq followed over > 2 pages")
 		k.LabelIf(l.local > 0, "store: log has an adopted retention boundary")
